@@ -226,11 +226,12 @@ class Storage:
 class Ref:
     """a name bound in a scope: storage + optional sub-selection (for collapsed slice / index actuals)"""
 
-    __slots__ = ("st", "sel")
+    __slots__ = ("st", "sel", "fty")
 
-    def __init__(self, st, sel=None):
+    def __init__(self, st, sel=None, fty=None):
         self.st = st
         self.sel = sel  # None | ('slice', l, dir, r) | ('index', i)
+        self.fty = fty  # declared type of the formal port bound to a slice actual (its own index range)
 
 
 class Proc:
@@ -404,8 +405,24 @@ class Design:
                 formals = {p["name"].lower(): p for p in sub_ent["ports"]}
                 implicit = []
                 seen = set()
+                out_convs = []
                 for f, actual in s["ports"]:
+                    conv = None
+                    if isinstance(f, tuple):
+                        _, conv, f = f
                     fl = f.lower()
+                    if conv is not None:
+                        if fl not in formals or formals[fl]["dir"] != "out":
+                            raise VhdlTypeError(f"conversion on the formal side is only supported for output ports ({f})")
+                        if fl in seen:
+                            raise VhdlTypeError(f"formal {f} associated twice")
+                        seen.add(fl)
+                        fty = self._mk_type(formals[fl]["type"], scope)
+                        st = Storage(sub_path + f, fty, fty.default(), True, port_dir="out")
+                        self.storages.append(st)
+                        binding[fl] = Ref(st)
+                        out_convs.append((st, conv, actual, f))
+                        continue
                     if fl not in formals:
                         raise VhdlTypeError(f"port map names unknown formal {f}")
                     if fl in seen:
@@ -416,6 +433,8 @@ class Design:
                     if ref is not None:
                         aty = self._ref_type(ref)
                         self._check_assoc(fty, aty, f, s)
+                        if ref.sel is not None and ref.sel[0] == "slice":
+                            ref = Ref(ref.st, ref.sel, fty)
                         binding[fl] = ref
                     else:
                         if formals[fl]["dir"] != "in":
@@ -433,8 +452,17 @@ class Design:
                     self.procs.append(Proc(pid2, None, scope, body, None, "cassign", s["line"]))
                 sub_scope = self._elab(s["entity"], sub_path, binding)
                 scope.instances.append((s, sub_scope))
+                for st, conv, actual, f in out_convs:
+                    # actual <= conv(formal): an implicit process in the parent scope reading the formal's storage
+                    hidden = f"cv_formal_{len(self.procs)}_{f}"
+                    scope.bind(hidden, Ref(st))
+                    pid2 = len(self.procs)
+                    body = [{"stmt": "sassign", "target": actual, "expr": ("call", conv, [("name", hidden)]), "line": s["line"]}]
+                    self.procs.append(Proc(pid2, None, scope, body, None, "cassign", s["line"]))
                 # an instance output drives its actual
                 for f, actual in s["ports"]:
+                    if isinstance(f, tuple):
+                        continue
                     if formals[f.lower()]["dir"] in ("out", "inout"):
                         ref = binding[f.lower()]
                         sub_scope_driver = ("inst", s["label"], path)
@@ -556,6 +584,8 @@ class Design:
             a, b = v.pos(l), v.pos(r)
             if a > b:
                 raise VhdlRuntimeError("slice direction mismatch")
+            if ref.fty is not None:
+                return Vec(v.kind, v.bits[a : b + 1], ref.fty.t[2], ref.fty.t[3])
             return Vec(v.kind, v.bits[a : b + 1], l, d)
         i = ref.sel[1]
         if isinstance(v, Arr):
@@ -977,6 +1007,22 @@ class Design:
             raise VhdlTypeError(f"assignment to undeclared or non-object name {node[1]}")
         path.reverse()
         if b.sel is not None:
+            if b.fty is not None and b.sel[0] == "slice" and path:
+                # indices used inside the sub-entity refer to the formal's declared range: re-base them
+                _, al, ad, ar = b.sel
+                fl_, fd = b.fty.t[2], b.fty.t[3]
+
+                def tr(i):
+                    p = fl_ - i if fd == "downto" else i - fl_
+                    return al - p if ad == "downto" else al + p
+
+                head = path[0]
+                if head[0] == "index":
+                    path[0] = ("index", tr(head[1]))
+                else:
+                    if head[2] != fd:
+                        raise VhdlTypeError("slice direction differs from object direction")
+                    path[0] = ("slice", tr(head[1]), ad, tr(head[3]))
             path.insert(0, b.sel)
         return b.st, path
 
